@@ -268,6 +268,11 @@ def run(chk):
             sf.save(buf)
             for lazy in ((None, True, False) if thorough else (rs.choice([None, True, False]),)):
                 jobs.append(("bytes", ("synthetic#%d.%s" % (k, fl or "sfnt"), buf.getvalue()), 0, lazy, "all", chk.seed, False))
+    # a generated font whose GPOS has long record arrays with offsets inside the records (lazily read when lazy=True)
+    dev = fonts.device_gpos_font()
+    for lazy in (None, True, False):
+        for sch in (("all", "rev") if not thorough else scheds):
+            jobs.append(("bytes", ("generated-device-GPOS", dev), 0, lazy, sch, chk.seed, False))
     # Edit lives: Open, Access(all), Edit(one table), Save, Reopen, Access(all), Save
     cffm = [(p, i) for p, i in members if p.lower().endswith((".otf", ".otc"))]
     rng.shuffle(cffm)
